@@ -446,6 +446,17 @@ def _outcome(cls, kw, n):
         return ("raise-get", E.exn_name(ex))
 
 
+def const_shadowed(cls, n):
+    """The listed _constants defect applies to field n of cls: some class of its MRO lists n in _constants although
+    attribute lookup from that class finds something that is not a Constant."""
+    from typedpy.commons import Constant
+    for c in cls.__mro__:
+        if n in (getattr(c, "__dict__", {}).get("_constants") or {}):
+            if not isinstance(mro_attribute(c, n)[1], Constant):
+                return True
+    return False
+
+
 def _describe(o):
     d = getattr(o, "_default", None)
     return "%s(default=%r)" % (type(o).__name__, d() if callable(d) else d)
